@@ -278,6 +278,31 @@ Definition roundtrip (junk:Z*Z) (ed:Z) (T:ltables) : option ltables :=
     end
   end.
 
+(* ------------------------------------------------------------------ bufr_encoding_to_valtype *)
+(* the C type the value of an element is held in, as bufr_encoding_to_valtype derives it from a Table B entry's encoding
+   (VALTYPE_FLTDEFAULT = VALTYPE_FLT64).  lb_aux = (af_nbits, ref_nbits). *)
+Inductive vtype := VInt32 | VInt64 | VFltDefault | VString.
+(* bufr_value_nbits(val): val >= 0: the first i in 1..64 with 2^i - 1 > val; val < 0: the first i with bnegval[i-1] > |val|
+   (bnegval[0] = 0, bnegval[k] = 2^k); 65 when the loop runs out *)
+Fixpoint vnbits_loop (fuel:nat) (i:Z) (neg:bool) (a:Z) : Z :=
+  match fuel with
+  | O => i
+  | S f => if (if neg then (if i =? 1 then 0 else 2 ^ (i - 1)) else 2 ^ i - 1) >? a then i else vnbits_loop f (i + 1) neg a
+  end.
+Definition value_nbits (v:Z) : Z := vnbits_loop 64 1 (v <? 0) (Z.abs v).
+Definition entry_valtype (e:lb_entry) : vtype :=
+  match lb_kind e with
+  | UStr => VString
+  | UNum =>
+      if (lb_scale e =? 0) && (0 <=? lb_ref e) then
+        let rb := if lb_ref e =? 0 then 0
+                  else if 0 <? snd (lb_aux e) then snd (lb_aux e) else value_nbits (lb_ref e) in
+        if lb_width e + rb <=? 32 then VInt32 else if lb_width e + rb <=? 64 then VInt64 else VFltDefault
+      else VFltDefault
+  | UCode | UFlag => if lb_width e <=? 32 then VInt32 else VInt64
+  end.
+Definition vtype_code (v:vtype) : Z := match v with VInt32 => 0 | VInt64 => 1 | VFltDefault => 2 | VString => 3 end.
+
 (* the local tables as the reference decoder uses them (local entries take precedence over the master tables) *)
 Definition kind_code (k:ukind) : Z := match k with UNum => 4 | UStr => 5 | UCode => 6 | UFlag => 7 end.
 Definition install (master:tables) (L:ltables) : tables :=
